@@ -44,15 +44,15 @@ CLAIMED["C06"]["note"] = "Sequentially consistent interleavings only. Time is vi
 CLAIMED.update({
  "C12": dict(engine="sii", category="exploration", design_ref="§5 C12",
    technique="property-based testing: device descriptions -> EEPROM images through an independent SII encoder, all range reads and parsed queries compared with the description (round trip / reference model)",
-   text="Random well-formed device descriptions (strings incl. non-ASCII/NUL/long, SMs, FMMUs, FMMU_EX, PDOs with entries, unknown categories interleaved in any order, sizes up to 128 KiB of address space) are encoded by the harness's own SII encoder; every byte-range read (odd lengths, mid-chunk ends, words >= 0x8000; 4 and 8 byte chunks; canary after the buffer) and every parsed value must equal the description, with the crate's documented string normalisation and explicit capacity errors accepted.",
+   text="Random well-formed device descriptions (strings incl. non-ASCII/NUL/long, SMs, FMMUs, FMMU_EX, PDOs with entries, unknown categories interleaved in any order, sizes up to 128 KiB of address space) are encoded by the harness's own SII encoder; every byte-range read (odd lengths, mid-chunk ends, words >= 0x8000; 4 and 8 byte chunks; canary after the buffer) and every parsed value must equal the description, with the crate's documented string normalisation and explicit capacity errors accepted. A second sub-run reads the same way through the SII interface of a simulated device (command register, 0..3 busy polls per command with the data register valid only afterwards, 4 / 8 bytes per access, a device that stays busy => timeout).",
    note="Runs through the verif-hooks facade SiiQueries over an in-memory provider; only SII fields whose position is unambiguous in ETG.1000.6/ETG.2010 are compared (General: string indices, CoE/FoE/EoE details, flags, current)."),
  "C13": dict(engine="sii", category="exploration", design_ref="§5 C13",
    technique="property-based fuzzing of the EEPROM parser: arbitrary / mutated / adversarial images, panic capture and a pigeonhole read budget that decides non-termination, in two arithmetic profiles",
-   text="Images (random bytes, well-formed images with byte mutations and truncation, hand-built category chains with absurd lengths, constant fill, categories pushed to the 64 KiB / 128 KiB boundaries) are fed to every EEPROM query. A panic (caught, or a fatal signal via the crash guard) is a violation; so is a query that issues more chunk reads than the walk has distinct states. Runs in release and in a profile with overflow checks + debug assertions, merged.",
+   text="Images (random bytes, well-formed images with byte mutations and truncation, hand-built category chains with absurd lengths, constant fill, categories pushed to the 64 KiB / 128 KiB boundaries) are fed to every EEPROM query. A panic (caught, or a fatal signal via the crash guard) is a violation; so is a query that issues more chunk reads than the walk has distinct states. Runs in release and in a profile with overflow checks + debug assertions, merged. A second sub-run puts the same images into a simulated device and runs MainDevice::init (and into_safe_op): it must end with a value or an error.",
    note="In-memory provider through the verif-hooks facade; the initialisation steps built on the queries (configuration.rs) are reached by the simulator-based checks, not here."),
  "C14": dict(engine="sii", category="fault_enumeration", design_ref="§5 C14",
    technique="exhaustive enumeration of all 65536 alias values over random headers plus property-based generic writes, before/after image comparison with an independent bitwise CRC-8",
-   text="Every alias 0..=65535 is written into a fresh random header: exactly the alias word and the checksum word may change, the checksum must be CRC-8(poly 0x07, init 0xFF) of the first 14 bytes after the change, the alias must read back. Generic writes of 0..64 bytes at generated word addresses (incl. >= 0x8000, odd lengths) must store exactly the bytes, pad an odd byte with zero and touch no other word.",
+   text="Every alias 0..=65535 is written into a fresh random header: exactly the alias word and the checksum word may change, the checksum must be CRC-8(poly 0x07, init 0xFF) of the first 14 bytes after the change, the alias must read back. Generic writes of 0..64 bytes at generated word addresses (incl. >= 0x8000, odd lengths) must store exactly the bytes, pad an odd byte with zero and touch no other word. A second sub-run writes aliases through the SII interface of a simulated device that answers 0..25 command errors per word (retry bound 20: exactly min(k,20)+1 write commands per word) or stays busy (timeout).",
    note="In-memory provider; command-error retries and busy devices need the simulated SII register interface (simulator-based part)."),
 })
 
